@@ -209,6 +209,10 @@ Proof.
   assert (Hh : wire_MsgTx_TxHash (Tx_MsgTx t) = t_id mt).
   { apply TxHash_spec. destruct (abs_tx_inv _ _ _ _ _ _ _ _ _ Ha) as (h & w & os & is_ & Hh & _ & _ & _ & ->).
     exact Hh. }
+  (* (phase 5) tx.MsgTx().TxHash(): the message of a related transaction is not nil *)
+  assert (Hmsg : exists w, Tx_MsgTx t = Some w).
+  { destruct (abs_tx_inv _ _ _ _ _ _ _ _ _ Ha) as (h & w & os & is_ & _ & Hw' & _). now exists w. }
+  destruct Hmsg as (wmsg & Hmsg). rewrite Hmsg at 1. cbn [Go3.deref rbind].
   rewrite Hh.
   change (Some ((Z.of_nat i, true) :: mi_of (s_matched st))) with (Some (mi_of (i :: s_matched st))).
   change (Kernels3.mk_bloom_blockFilterer (Some (putf (putf bf0 (s_f st)) f')) (Some (mi_of (i :: s_matched st))))
